@@ -109,6 +109,11 @@ func fieldOf(info *types.Info, e ast.Expr) *types.Var {
 	e = unparen(e)
 	sel, ok := e.(*ast.SelectorExpr)
 	if !ok {
+		if id, isId := e.(*ast.Ident); isId && theWorld != nil && !theWorld.noAlias {
+			if o, ok := info.Uses[id].(*types.Var); ok {
+				return theWorld.paramAliases()[o]
+			}
+		}
 		return nil
 	}
 	if s, ok := info.Selections[sel]; ok && s.Kind() == types.FieldVal {
@@ -116,6 +121,109 @@ func fieldOf(info *types.Info, e ast.Expr) *types.Var {
 		return v
 	}
 	return nil
+}
+
+// plainFieldOf is fieldOf without the parameter aliases.
+func plainFieldOf(info *types.Info, e ast.Expr) *types.Var {
+	sel, ok := unparen(e).(*ast.SelectorExpr)
+	if !ok {
+		return nil
+	}
+	if s, ok := info.Selections[sel]; ok && s.Kind() == types.FieldVal {
+		v, _ := s.Obj().(*types.Var)
+		return v
+	}
+	return nil
+}
+
+// paramAliases: a map-typed parameter of an unexported repository function to
+// which every call site passes the same struct field (updateDegrees(g.nodes,
+// g.edges), checkRegistrable(r.services, d)) denotes that field's table: the
+// rules treat an access through the parameter as an access to the field.
+// Functions that are also used as values (callbacks) have unseen call sites and
+// get no aliases.
+func (w *World) paramAliases() map[types.Object]*types.Var {
+	if w.palias != nil {
+		return w.palias
+	}
+	w.palias = map[types.Object]*types.Var{}
+	// functions referenced other than in call position
+	asValue := map[*types.Func]bool{}
+	for _, fi := range w.Decls {
+		info := fi.Pkg.TypesInfo
+		inCall := map[*ast.Ident]bool{}
+		ast.Inspect(fi.Decl.Body, func(n ast.Node) bool {
+			if c, ok := n.(*ast.CallExpr); ok {
+				switch f := unparen(c.Fun).(type) {
+				case *ast.Ident:
+					inCall[f] = true
+				case *ast.SelectorExpr:
+					inCall[f.Sel] = true
+				}
+			}
+			return true
+		})
+		ast.Inspect(fi.Decl.Body, func(n ast.Node) bool {
+			if id, ok := n.(*ast.Ident); ok && !inCall[id] {
+				if f, ok := info.Uses[id].(*types.Func); ok {
+					asValue[f] = true
+				}
+			}
+			return true
+		})
+	}
+	for round := 0; round < 2; round++ {
+		type slot struct {
+			fv  *types.Var
+			bad bool
+		}
+		cand := map[types.Object]*slot{}
+		for _, fi := range w.Decls {
+			info := fi.Pkg.TypesInfo
+			for _, c := range callsIn(fi.Decl.Body, true) {
+				cal := callee(info, c)
+				t := w.Decls[cal]
+				if t == nil || cal.Exported() || asValue[cal] || t.Decl.Body == nil {
+					continue
+				}
+				tinfo := t.Pkg.TypesInfo
+				k := 0
+				for _, fl := range t.Decl.Type.Params.List {
+					for _, nm := range fl.Names {
+						po := tinfo.Defs[nm]
+						if po != nil && k < len(c.Args) {
+							if _, isMap := po.Type().Underlying().(*types.Map); isMap {
+								sl := cand[po]
+								if sl == nil {
+									sl = &slot{}
+									cand[po] = sl
+								}
+								fv := plainFieldOf(info, c.Args[k])
+								if fv == nil {
+									if o, ok := objOf(info, c.Args[k]).(*types.Var); ok {
+										fv = w.palias[o]
+									}
+								}
+								switch {
+								case fv == nil, sl.fv != nil && sl.fv != fv:
+									sl.bad = true
+								default:
+									sl.fv = fv
+								}
+							}
+						}
+						k++
+					}
+				}
+			}
+		}
+		for po, sl := range cand {
+			if !sl.bad && sl.fv != nil {
+				w.palias[po] = sl.fv
+			}
+		}
+	}
+	return w.palias
 }
 
 // selBase returns x of a selector x.f.
